@@ -51,6 +51,7 @@ var (
 type reader struct {
 	r            flate.Reader
 	decompressor io.ReadCloser
+	withDict     bool // decompressor was created by flate.NewReaderDict
 	digest       hash.Hash32
 	err          error
 	scratch      [4]byte
@@ -132,7 +133,7 @@ func (z *reader) Close() error {
 }
 
 func (z *reader) Reset(r io.Reader, dict []byte) error {
-	*z = reader{decompressor: z.decompressor}
+	*z = reader{decompressor: z.decompressor, withDict: z.withDict}
 	if fr, ok := r.(*bufio.Reader); ok {
 		z.r = fr
 	} else {
@@ -168,12 +169,15 @@ func (z *reader) Reset(r io.Reader, dict []byte) error {
 		}
 	}
 
-	if z.decompressor == nil {
+	if z.decompressor == nil || z.withDict != haveDict {
+		// the dictionary-less decompressor ignores dict, and the other one
+		// must not see a dictionary the stream does not refer to
 		if haveDict {
 			z.decompressor = flate.NewReaderDict(z.r, dict)
 		} else {
 			z.decompressor = flate.NewReader(z.r)
 		}
+		z.withDict = haveDict
 	} else {
 		z.decompressor.(flate.Resetter).Reset(z.r, dict)
 	}
